@@ -218,6 +218,9 @@ class SpecGen:
             else:
                 v = r.choice(U.SCALARS)
             U.set_path(o, k, v)
+        if cfg.get("preset_plain_section") and r.random() < 0.2 and "S" not in o and not any(a == "S" or a.startswith("S.") for a in avoid):
+            # a PLAIN value where callers (and readers) have a section
+            o["S"] = r.choice([0, 1, "a", None])
         if U.has_template_cycle(o):
             return self.preset(avoid)
         return o
